@@ -467,6 +467,25 @@ pub fn run(scn: &Value) -> Value {
         craw = raw;
         servers = boxed;
     }
+    // local mode: every replica talks to the real LocalServer (SQLite file) through its own handle on one directory
+    let local = scn.get("server").and_then(|s| s.as_str()) == Some("local");
+    let ldir = std::path::PathBuf::from(format!(
+        "{}/tc-replay-local-{}-{}",
+        if std::path::Path::new("/dev/shm").is_dir() { "/dev/shm" } else { "/tmp" },
+        std::process::id(),
+        Uuid::new_v4().as_simple()
+    ));
+    let local_handles = |n: usize| -> Vec<Box<dyn Server>> {
+        (0..n)
+            .map(|_| {
+                block_on(taskchampion::ServerConfig::Local { server_dir: ldir.clone() }.into_server()).expect("LocalServer::new")
+            })
+            .collect()
+    };
+    if local {
+        std::fs::create_dir_all(&ldir).expect("scratch dir");
+        servers = local_handles(nrep);
+    }
     let mut results = Vec::new();
     let mut saved_undo: BTreeMap<usize, Operations> = BTreeMap::new();
     for step in scn["steps"].as_array().cloned().unwrap_or_default() {
@@ -485,6 +504,9 @@ pub fn run(scn: &Value) -> Value {
                 let (raw, boxed) = cloud_handles(&cstore, nrep);
                 craw = raw;
                 servers = boxed;
+            }
+            if local {
+                servers = local_handles(nrep);
             }
             results.push(json!({"new_handles": true}));
         } else if let Some(r) = step.get("sync").and_then(|v| v.as_u64()) {
@@ -505,6 +527,8 @@ pub fn run(scn: &Value) -> Value {
             }
             if let Some(f) = step.get("fault") {
                 if f["layer"].as_str() == Some("service") {
+                } else if f["layer"].as_str() == Some("local") {
+                    taskchampion::verif::failpoint::arm(f["point"].as_str().unwrap_or(""), f["nth"].as_u64().unwrap_or(1) as u32);
                 } else if f["layer"].as_str() == Some("storage") {
                     let mut p = plans[r].lock().unwrap();
                     p.armed = true;
@@ -518,6 +542,9 @@ pub fn run(scn: &Value) -> Value {
                 }
             }
             let res = block_on(reps[r].sync(&mut servers[r], avoid));
+            let fp_fired = step.get("fault").map(|f| f["layer"].as_str() == Some("local")).unwrap_or(false)
+                && !taskchampion::verif::failpoint::is_armed();
+            taskchampion::verif::failpoint::disarm();
             let fired = {
                 let mut p = plans[r].lock().unwrap();
                 p.armed = false;
@@ -525,8 +552,8 @@ pub fn run(scn: &Value) -> Value {
             };
             let n1 = st.borrow().chain.len();
             results.push(match res {
-                Ok(()) => json!({"ok": true, "versions_added": n1 - n0, "storage_fault_fired": fired}),
-                Err(e) => json!({"err": format!("{e:#}"), "versions_added": n1 - n0, "storage_fault_fired": fired}),
+                Ok(()) => json!({"ok": true, "versions_added": n1 - n0, "storage_fault_fired": fired, "failpoint_fired": fp_fired}),
+                Err(e) => json!({"err": format!("{e:#}"), "versions_added": n1 - n0, "storage_fault_fired": fired, "failpoint_fired": fp_fired}),
             });
         } else if let Some(group) = step.get("race").and_then(|v| v.as_array()) {
             // concurrent syncs: `race` lists the replicas, `schedule` the order in which their
@@ -666,6 +693,38 @@ pub fn run(scn: &Value) -> Value {
             "server": {"versions": versions, "chain_state": tasks_json(&chain_state), "snapshots": [],
                        "walk_error": walk_err, "latest_is_end_of_walk": latest == end,
                        "objects": cstore.dump().len()},
+        });
+    }
+    if local {
+        // the chain as served to a fresh handle on the same directory
+        let mut fresh = local_handles(1).pop().unwrap();
+        let mut chain_state = Tasks::new();
+        let mut versions = Vec::new();
+        let mut parent = Uuid::nil();
+        let mut walk_err = Value::Null;
+        for _ in 0..64 {
+            match block_on(fresh.get_child_version(parent)) {
+                Ok(GetVersionResult::Version { version_id, history_segment, .. }) => {
+                    let doc: Value = serde_json::from_slice(&history_segment).unwrap_or(Value::Null);
+                    apply_version_json(&mut chain_state, &doc);
+                    versions.push(json!({"doc": abbreviate(&doc), "bytes": history_segment.len()}));
+                    parent = version_id;
+                }
+                Ok(GetVersionResult::NoSuchVersion) => break,
+                Err(e) => {
+                    walk_err = json!(e.to_string());
+                    break;
+                }
+            }
+        }
+        drop(fresh);
+        drop(servers);
+        let _ = std::fs::remove_dir_all(&ldir);
+        return json!({
+            "steps": results,
+            "replicas": reps_out,
+            "server": {"versions": versions, "chain_state": tasks_json(&chain_state), "snapshots": [],
+                       "walk_error": walk_err, "latest_is_end_of_walk": Value::Null},
         });
     }
     let stb = st.borrow();
